@@ -586,22 +586,32 @@ CASES = []   # all K1 cases of this run (S looks the objects up again)
 ASTS = []    # (label, TypeDeclUnit) handed to Serialize
 
 
-def build_asts(R, rng, tier, gen, res):
-  """ASTs 'pytype emits or loads': emitted for programs, bundled stubs (parsed), loader-resolved builtins."""
+def build_asts(R, rng, tier, gen, res, crashes):
+  """ASTs 'pytype emits or loads': emitted for programs, bundled stubs (parsed), loader-resolved builtins.
+  Exceptions of the real code are collected in `crashes` (they become disagreements)."""
+  import traceback
   asts = []
+
+  def crash(what, inp, e):
+    crashes.append({"kind": "real-crash", "what": "%s raised %s: %s" % (what, type(e).__name__, str(e)[:300]),
+                    "input": inp, "traceback": traceback.format_exc()[-1500:]})
   opts = R.config.Options.create(python_version=(3, 12))
-  loader = R.load_pytd.create_loader(opts)
   progs = list(PROGRAMS) + [gen_program(rng, i) for i in range(4 if tier == "quick" else 30)]
   if tier == "quick":
     progs = [progs[i] for i in sorted(rng.sample(range(len(PROGRAMS)), 5))] + progs[len(PROGRAMS):]
-  nerr = 0
-  for i, src in enumerate(progs):
-    try:
-      ret, _ = R.io.generate_pyi(src, opts, loader)
-      asts.append(("emitted:%d" % i, ret.ast, src))
-    except Exception as e:  # pylint: disable=broad-except
-      nerr += 1
-      res.cov.setdefault("generate_pyi_errors", []).append("%s: %s" % (type(e).__name__, str(e)[:100]))
+  try:
+    loader = R.load_pytd.create_loader(opts)
+    _ = loader.builtins
+  except Exception as e:  # pylint: disable=broad-except
+    crash("load_pytd.create_loader / loading the bundled builtins", "pytype/stubs/builtins/builtins.pytd", e)
+    loader = None
+  if loader is not None:
+    for i, src in enumerate(progs):
+      try:
+        ret, _ = R.io.generate_pyi(src, opts, loader)
+        asts.append(("emitted:%d" % i, ret.ast, src))
+      except Exception as e:  # pylint: disable=broad-except
+        crash("io.generate_pyi", src, e)
   # bundled stubs, parsed (unresolved NamedTypes)
   popts = R.parser.PyiOptions(python_version=(3, 12))
   stub_dir = os.path.join(common.REPO, "pytype", "stubs", "builtins")
@@ -619,15 +629,25 @@ def build_asts(R, rng, tier, gen, res):
     try:
       asts.append(("stub:" + s, R.parser.parse_string(open(path).read(), name=mod, filename=path, options=popts), None))
     except Exception as e:  # pylint: disable=broad-except
-      res.cov.setdefault("stub_parse_errors", []).append("%s: %s" % (s, str(e)[:100]))
-  # generated stubs in the emitted dialect: print a generated unit is not needed — Serialize takes ASTs
+      if s in ("builtins.pytd", "typing.pytd", "protocols.pytd", "mypy_extensions.pytd"):
+        crash("parser.parse_string", "pytype/stubs/builtins/" + s, e)
+      else:
+        res.cov.setdefault("stub_parse_errors", []).append("%s: %s" % (s, str(e)[:100]))
   for i in range(6 if tier == "quick" else 60):
-    asts.append(("generated-unit:%d" % i, gen.unit(2, size=3, name="gen%d" % i), None))
+    try:
+      asts.append(("generated-unit:%d" % i, gen.unit(2, size=3, name="gen%d" % i), None))
+    except Exception as e:  # pylint: disable=broad-except
+      crash("constructing generated pytd nodes", "generated-unit:%d" % i, e)
+      break
   # the resolved builtins/typing of a fresh loader (ClassType pointers everywhere); serialising clears
   # the pointers in place, so this loader is not used for anything else afterwards
-  fresh = R.load_pytd.create_loader(opts)
-  asts.append(("loader:builtins", fresh.builtins, None))
-  asts.append(("loader:typing", fresh.typing, None))
+  try:
+    fresh = R.load_pytd.create_loader(opts)
+    asts.append(("loader:builtins", fresh.builtins, None))
+    asts.append(("loader:typing", fresh.typing, None))
+  except Exception as e:  # pylint: disable=broad-except
+    if loader is not None:
+      crash("load_pytd.create_loader", "pytype/stubs/builtins", e)
   return asts
 
 
@@ -640,12 +660,16 @@ def correspond(res, rng, tier):
   gen = Gen(rng, R)
   disagreements = []
   cases = []
-  cases += gen.size_cases()
-  cases += gen.decl_cases(260 if tier == "quick" else 2500, 3)
-  cases += gen.probe_cases()
+  for mk in (gen.size_cases, lambda: gen.decl_cases(260 if tier == "quick" else 2500, 3), gen.probe_cases):
+    try:
+      cases += mk()
+    except Exception as e:  # pylint: disable=broad-except
+      import traceback
+      disagreements.append({"kind": "real-crash", "what": "constructing pytd nodes raised %s: %s" % (
+          type(e).__name__, str(e)[:300]), "input": "generator", "traceback": traceback.format_exc()[-1500:]})
   # ASTs: laws first (they need the unserialised tree), then the SerializableAst as a codec case
   trace("cases generated")
-  asts = build_asts(R, rng, tier, gen, res)
+  asts = build_asts(R, rng, tier, gen, res, disagreements)
   trace("asts built")
   ASTS[:] = asts
   law_fail = 0
@@ -992,8 +1016,9 @@ def shrink_ast(R, ast, fails, budget_s=25.0):
   def build(its):
     return p.TypeDeclUnit(ast.name, *[tuple(x for f2, x in its if f2 == f)
                                       for f in ("constants", "type_params", "classes", "functions", "aliases")])
-  small = common.ddmin(items, lambda its: fails(build(its)), budget_s=budget_s)
-  return build(small)
+  small = build(common.ddmin(items, lambda its: fails(build(its)), budget_s=budget_s))
+  # then inside the remaining declarations
+  return shrink_node(R, "TypeDeclUnit", small, fails, budget_s=15.0)
 
 
 def search(res, rng, disagreements, pfail):
@@ -1040,9 +1065,16 @@ def search(res, rng, disagreements, pfail):
                     "len({a,b})": len({a3, b2}), "violating_pairs_in_pool": len(bad)})
       break
   trace("search: eq/hash pools done")
+  for d in disagreements:
+    if d.get("kind") == "real-crash" and len(found) < 3:
+      found.append({"oracle": "pytype can load / emit / construct the AST that is to be serialised",
+                    "input": d.get("input"), "what": d.get("what"), "traceback": d.get("traceback")})
   # 2. the inputs of the disagreements
   seen_cases = set()
-  for d in disagreements:
+  order = {"eqhash": 0, "codec": 1, "codec-law": 1, "ast-law": 2}
+  for d in sorted(disagreements, key=lambda d: (order.get(d.get("kind"), 3),
+                                                 CASES[d["case"]]["tyname"] == "SerializableAst"
+                                                 if isinstance(d.get("case"), int) and d["case"] < len(CASES) else False)):
     if len(found) >= 3 or time.time() - t0 > 150:
       break
     if d.get("kind") in ("codec", "codec-law") and d.get("case") is not None and d["case"] < len(CASES):
